@@ -103,6 +103,23 @@ def classify_release_guard(ctx, b, bb):
     return kinds[0]
 
 
+def interrupted_release_needs_no_id(ctx, site):
+    """None if the INTERRUPTED release happens whether or not the interrupted
+    poll carried an id; else a description of the extra condition."""
+    m, fl = ctx.model, ctx.model.flow
+    for (eb, ebb, depth) in effective_sites(ctx, site["body"], site["bb"]):
+        for sb, de, vals in cond_guards(eb, ebb):
+            e = strip_refs(de)
+            if e.kind != "discr":
+                continue
+            srcs = sources_of_expr(ctx, eb, strip_refs(e[1]))
+            if srcs and m.is_ready_item(srcs):
+                which = "no id was dequeued" if "1" not in vals else "an id was dequeued"
+                return "the interrupted poll carried %s (guard on the dequeued Option at %s)" % (
+                    "no id" if "1" not in vals else "an id", eb.loc(sb))
+    return None
+
+
 def is_pre_scheduler_body(b):
     """fn body or the coroutine of an async fn (not a closure / async block
     handed to an adaptor)."""
@@ -133,6 +150,14 @@ def T1(ctx, rule="T1", kinds=None):
             if k == "EMPTY":
                 cands = [s for s in cands if is_pre_scheduler_body(s["body"])]
             n += 1
+            if k == "INTERRUPTED" and cands:
+                dep = [interrupted_release_needs_no_id(ctx, s) for s in cands]
+                good = [s for s, d in zip(cands, dep) if d is None]
+                if not good:
+                    ctx.bad(rule, "%s|%s" % (k, e["name"]), where,
+                            "INTERRUPTED: the done-sender is released only when %s: an interruption that still hands out an item leaves the queuer waiting (path family %s)" % (dep[0], fam))
+                    continue
+                cands = good
             if cands:
                 s = cands[0]
                 ctx.ok(rule, "%s|%s" % (k, e["name"]), where,
@@ -281,10 +306,14 @@ def T3_body(ctx, body):
     fl = ctx.model.flow
     defs = get_defs(body)
     pollres = {}      # local -> (rxkey, call bb)
+    noctx = {}        # receivers consumed without the task context (try_recv): never register a waker
     for bb, t in body.calls():
         if callee_path(t) in ("tokio::sync::mpsc::Receiver::<T>::poll_recv", "tokio::sync::mpsc::UnboundedReceiver::<T>::poll_recv"):
             pollres[t["dest"]["l"]] = (rx_key(body, t["args"][0]), bb)
-    if not pollres:
+        elif callee_path(t) in ("tokio::sync::mpsc::Receiver::<T>::try_recv", "tokio::sync::mpsc::UnboundedReceiver::<T>::try_recv",
+                                "tokio::sync::mpsc::Receiver::<T>::blocking_recv"):
+            noctx[rx_key(body, t["args"][0])] = bb
+    if not pollres and not noctx:
         return {}, []
 
     def root_pollres(local, depth=0):
@@ -342,8 +371,8 @@ def T3_body(ctx, body):
             return (pollres[r][0], "option", exact)
         return None
 
-    rxs = sorted({k for k, _ in pollres.values()})
-    init = {k: frozenset(["U"]) for k in rxs}
+    rxs = sorted({k for k, _ in pollres.values()} | set(noctx))
+    init = {k: frozenset(["U"]) for k in sorted({k for k, _ in pollres.values()})}
     state_in = {0: init}
     work = [0]
     nblocks = len(body.blocks)
@@ -442,6 +471,10 @@ def T3_body(ctx, body):
             else:
                 may_pending = True
     problems = []
+    polled_keys = {k for k, _ in pollres.values()}
+    for k, cbb in noctx.items():
+        if k not in polled_keys and may_pending:
+            problems.append((cbb, k, ["consumed with try_recv only: no waker is ever registered for this receiver"]))
     for bb, st in ret_states:
         for k, v in st.items():
             if k in returned and not (v & {"S"}):
@@ -480,8 +513,8 @@ def T3(ctx, rule="T3", families=None, want_stream=None):
         if problems:
             bb, k, v = problems[0]
             ctx.bad(rule, "lost-wakeup|%s" % key, m.where(cb, bb),
-                    "hand-written poll function can return Pending after `%s.poll_recv` returned Ready(Some(..)) (states %s at return): "
-                    "tokio registers no waker on a Ready result, so further notifications already queued are never observed and no wake-up is scheduled"
+                    "hand-written poll function can return Pending without a wake-up registered on `%s` (%s): "
+                    "tokio registers a waker only when poll_recv returns Pending, so notifications arriving / already queued are never observed"
                     % (k, v), detail={"receivers": rxs, "problems": [(b_, k_, v_) for b_, k_, v_ in problems]})
         else:
             ctx.ok(rule, "wakeup|%s" % key, where,
@@ -529,7 +562,8 @@ def U1(ctx, rule="U1"):
                 from analysis import expr_rvalue
                 v = expr_rvalue(cb, s["rv"], 0, (bb, si))
                 if v.kind == "binop" and v[1] == "Sub":
-                    srcs = sources_of_expr(ctx, cb, v[2], mode="taint")
+                    # the countdown itself: a value initialised directly from node_count() (not a count of edges)
+                    srcs = sources_of_expr(ctx, cb, v[2], mode="prov")
                     if any(x.kind == "alloc" and x[4] in NODE_COUNT_FNS for x in srcs):
                         decs.append((bb, si, v))
         ok = len(decs) == 1 and is_const(decs[0][2][3], 1)
@@ -566,3 +600,50 @@ def U1(ctx, rule="U1"):
                   "READY is polled only while the done-sender is still held; afterwards the stream ends with Ready(None)",
                   "the poll of READY is not guarded by the done-sender being present: the stream cannot end (READY's sender is also held by the closure)")
     ctx.floor(rule, 6, "end-of-stream obligations")
+
+
+def T4(ctx, rule="T4"):
+    """Every item of the interruptible ready stream reaches the scheduler: a
+    filter/filter_map between `interruptible_with` and the consuming adaptor
+    must pass every item on (otherwise an `Interrupted(None)` notice is lost
+    and the done-sender held by the concurrent paths is never released)."""
+    m, fb, fl = ctx.model, ctx.fb, ctx.model.flow
+    if not m.interruptible:
+        return
+    n = 0
+    for b in fb.prod_bodies():
+        for bb, t in b.calls():
+            p = callee_path(t)
+            if p not in ("futures::StreamExt::filter_map", "futures::StreamExt::filter", "futures::StreamExt::take_while",
+                         "futures::StreamExt::skip_while", "futures::StreamExt::take", "futures::StreamExt::skip"):
+                continue
+            # only filters applied to a stream that went through interruptible_with
+            e = strip_refs(expr_operand(b, t["args"][0]))
+            if not any(c.kind == "call" and c[1] == "interruptible::InterruptibleStreamExt::interruptible_with" for c in walk_expr(e)):
+                continue
+            n += 1
+            where = m.where(b, bb)
+            if p != "futures::StreamExt::filter_map":
+                ctx.bad(rule, "narrowed|%s" % short(b.id), where, "the interruptible ready stream is narrowed by %s" % p)
+                continue
+            fcl = fl._closure_body_of_operand(b, t["args"][1])
+            ok = False
+            why = "filter_map closure not found"
+            if fcl is not None:
+                # the closure's return: ready(Some(param)) on every path
+                rs = fl.sources_local(fcl, 0, ("$out",))
+                agg_ok = True
+                rets = get_defs(fcl).of(0)
+                why = "the closure does not return `ready(Some(item))` unconditionally"
+                if len(rets) == 1 and rets[0][0] == "call" and callee_path(rets[0][3]) in ("futures::future::ready", "std::future::ready"):
+                    a = strip_refs(expr_operand(fcl, rets[0][3]["args"][0]))
+                    if a.kind == "agg" and a[3] == "Some" and strip_refs(a[4][0]) == E(("arg", 2)):
+                        ok = True
+                    else:
+                        why = "the closure returns `ready(%s)`: items can be dropped" % fmt_expr(a, fcl)
+            ctx.check(ok, rule, "passthrough|%s" % short(b.id), where,
+                      "the filter behind the interruptible wrapper passes every item (including Interrupted(None)) on to the scheduler",
+                      "an interruption notice can be filtered away before the scheduler sees it: %s" % why)
+    ctx.counts[rule] = n
+    if n < 1:
+        ctx.unverifiable(rule, "floor", "-", "expected a filter_map behind interruptible_with in the tracking function")
